@@ -26,26 +26,66 @@ impl Storage {
         ensures r is Ok, r->Ok_0 == self.s_genesis(), r->Ok_0.is_none() ==> db_uninitialised(*self),
                 r->Ok_0.is_some() ==> r->Ok_0.unwrap()@.len() >= 32 { unimplemented!() }
     #[verifier::external_body]
-    pub fn batch(&self) -> (r: Batch) requires db_uninitialised(*self) { unimplemented!() }
+    pub fn batch(&self) -> (r: Batch) requires db_uninitialised(*self) /*props:C12,C07,C09,C03*/ { unimplemented!() }
     #[verifier::external_body]
-    pub fn update_last_state(&self, total_difficulty: &U256, tip_header: &Header, last_n_headers: &[HeaderView]) requires db_uninitialised(*self) { unimplemented!() }
+    pub fn update_last_state(&self, total_difficulty: &U256, tip_header: &Header, last_n_headers: &[HeaderView]) requires db_uninitialised(*self) /*props:C12*/ { unimplemented!() }
     #[verifier::external_body]
-    pub fn update_last_n_headers(&self, headers: &[HeaderView]) requires db_uninitialised(*self) { unimplemented!() }
+    pub fn update_last_n_headers(&self, headers: &[HeaderView]) requires db_uninitialised(*self) /*props:C12*/ { unimplemented!() }
     #[verifier::external_body]
-    pub fn update_max_check_point_index(&self, index: u32) requires db_uninitialised(*self) { unimplemented!() }
+    pub fn update_max_check_point_index(&self, index: u32) requires db_uninitialised(*self) /*props:C07*/ { unimplemented!() }
     #[verifier::external_body]
-    pub fn update_check_points(&self, start_index: u32, check_points: &[Byte32]) requires db_uninitialised(*self) { unimplemented!() }
+    pub fn update_check_points(&self, start_index: u32, check_points: &[Byte32]) requires db_uninitialised(*self) /*props:C07*/ { unimplemented!() }
     #[verifier::external_body]
-    pub fn update_min_filtered_block_number(&self, block_number: u64) requires db_uninitialised(*self) { unimplemented!() }
+    pub fn update_min_filtered_block_number(&self, block_number: u64) requires db_uninitialised(*self) /*props:C09,C03*/ { unimplemented!() }
     #[verifier::external_body]
-    pub fn update_block_number(&self, block_number: u64) requires db_uninitialised(*self) { unimplemented!() }
+    pub fn update_block_number(&self, block_number: u64) requires db_uninitialised(*self) /*props:C09,C03*/ { unimplemented!() }
     #[verifier::external_body]
-    pub fn clear_matched_blocks(&self) requires db_uninitialised(*self) { unimplemented!() }
+    pub fn clear_matched_blocks(&self) requires db_uninitialised(*self) /*props:C09,C03*/ { unimplemented!() }
     #[verifier::external_body]
-    pub fn remove_matched_blocks(&self, start_number: u64) requires db_uninitialised(*self) { unimplemented!() }
+    pub fn remove_matched_blocks(&self, start_number: u64) requires db_uninitialised(*self) /*props:C09,C03*/ { unimplemented!() }
     #[verifier::external_body]
-    pub fn rollback_to_block(&self, to_number: u64) requires db_uninitialised(*self) { unimplemented!() }
+    pub fn rollback_to_block(&self, to_number: u64) requires db_uninitialised(*self) /*props:C09,C03*/ { unimplemented!() }
 }
 // ===== end =====
 #[verifier::external_body]
 pub fn vf_prefix_vec(v: &Vec<u8>, n: usize) -> (r: Vec<u8>) requires v@.len() >= n ensures r@ == v@.subrange(0, n as int) { unimplemented!() }
+// the genesis filter hash computation of the first-start branch (only so that a change which moves it still type-checks here)
+pub struct BlockViewG { pub x: u8 }
+pub struct WrappedBlockView<'a> { pub b: &'a BlockViewG }
+pub struct TxViewsG { pub x: u8 }
+pub struct FilterVecG { pub x: u8 }
+pub struct OutPointsG { pub x: u8 }
+pub struct PackedBytesG { pub x: u8 }
+pub struct H256G { pub x: u8 }
+impl Block {
+    #[verifier::external_body]
+    pub fn into_view(self) -> (r: BlockViewG) { unimplemented!() }
+}
+impl BlockViewG {
+    #[verifier::external_body]
+    pub fn transactions(&self) -> (r: TxViewsG) { unimplemented!() }
+}
+impl<'a> WrappedBlockView<'a> {
+    #[verifier::external_body]
+    pub fn new(b: &'a BlockViewG) -> (r: WrappedBlockView<'a>) { unimplemented!() }
+}
+#[verifier::external_body]
+pub fn build_filter_data<'a>(provider: WrappedBlockView<'a>, txs: &TxViewsG) -> (r: (FilterVecG, OutPointsG)) { unimplemented!() }
+impl OutPointsG {
+    #[verifier::external_body]
+    pub fn is_empty(&self) -> (r: bool) ensures r { unimplemented!() }       // the genesis block misses no out point (else: deliberate start-up abort)
+}
+impl FilterVecG {
+    #[verifier::external_body]
+    pub fn pack(&self) -> (r: PackedBytesG) { unimplemented!() }
+}
+#[verifier::external_body]
+pub fn calc_filter_hash(parent: &Byte32, data: &PackedBytesG) -> (r: H256G) { unimplemented!() }
+impl H256G {
+    #[verifier::external_body]
+    pub fn pack(&self) -> (r: Byte32) { unimplemented!() }
+}
+impl Byte32 {
+    #[verifier::external_body]
+    pub fn zero() -> (r: Byte32) { unimplemented!() }
+}
